@@ -35,3 +35,16 @@ func VerifJSONOptionsImmutable(n int) {
 }
 
 func verifOptM() *minify.M { return nil }
+
+// VerifJSONSharedState (C13): one call with symbolic options, with or without the inline parameter, on a shared option
+// struct and a shared *minify.M, under the write-set monitor: no store to memory that existed before the call.
+func VerifJSONSharedState(n int) {
+	o := &Minifier{KeepNumbers: vBool("a"), Precision: vChoice("p", 3)}
+	m := verifOptM()
+	var params map[string]string
+	if vBool("inlineparam") {
+		params = map[string]string{"inline": "1"}
+	}
+	in := verifSharedInput(n, verifJSONDocs)
+	verifNoSharedWrite(in, func(w *vWriter, r *vReader) error { return o.Minify(m, w, r, params) })
+}
